@@ -384,7 +384,11 @@ func enumBranches(p *packages.Package, fd *ast.FuncDecl, subjectIsParamOrField f
 				case *ast.AssignStmt:
 					if len(x.Lhs) == 1 && len(x.Rhs) == 1 {
 						if v, ok := core.ConstInt(info, x.Rhs[0]); ok {
-							emitted = append(emitted, fmt.Sprintf("%s=%d", types.ExprString(x.Lhs[0]), v))
+							if id, isId := x.Lhs[0].(*ast.Ident); isId {
+								if b, isB := info.TypeOf(id).Underlying().(*types.Basic); isB && b.Info()&types.IsInteger != 0 {
+									emitted = append(emitted, fmt.Sprintf("code=%d", v))
+								}
+							}
 						}
 					}
 				case *ast.CallExpr:
@@ -411,8 +415,8 @@ func E6EnumTables(c *core.Ctx, r *core.Report) {
 		want    map[string]string // type -> substring that must be emitted in its branch
 	}
 	exps := []exp{
-		{"renderers/pdf", "pdfPageWriter.SetLineCap", map[string]string{"ButtCapper": "lineCap=0", "RoundCapper": "lineCap=1", "SquareCapper": "lineCap=2"}},
-		{"renderers/pdf", "pdfPageWriter.SetLineJoin", map[string]string{"MiterJoiner": "lineJoin=0", "RoundJoiner": "lineJoin=1", "BevelJoiner": "lineJoin=2"}},
+		{"renderers/pdf", "pdfPageWriter.SetLineCap", map[string]string{"ButtCapper": "code=0", "RoundCapper": "code=1", "SquareCapper": "code=2"}},
+		{"renderers/pdf", "pdfPageWriter.SetLineJoin", map[string]string{"MiterJoiner": "code=0", "RoundJoiner": "code=1", "BevelJoiner": "code=2"}},
 		{"renderers/ps", "PS.setLineCap", map[string]string{"ButtCapper": " 0 setlinecap", "RoundCapper": " 1 setlinecap", "SquareCapper": " 2 setlinecap"}},
 		{"renderers/ps", "PS.setLineJoin", map[string]string{"MiterJoiner": " 0 setlinejoin", "RoundJoiner": " 1 setlinejoin", "BevelJoiner": " 2 setlinejoin"}},
 		{"renderers/svg", "SVG.RenderPath", map[string]string{"RoundCapper": ";stroke-linecap:round", "SquareCapper": ";stroke-linecap:square", "BevelJoiner": ";stroke-linejoin:bevel", "RoundJoiner": ";stroke-linejoin:round", "ArcsJoiner": ";stroke-linejoin:arcs"}},
@@ -468,13 +472,25 @@ func E6EnumTables(c *core.Ctx, r *core.Report) {
 	{
 		p := c.MustPkg("renderers/pdf")
 		info := p.TypesInfo
-		for fn, want := range map[string][2]string{"pdfPageWriter.SetLineCap": {"lineCap", " %d J"}, "pdfPageWriter.SetLineJoin": {"lineJoin", " %d j"}} {
+		for fn, want := range map[string]string{"pdfPageWriter.SetLineCap": " %d J", "pdfPageWriter.SetLineJoin": " %d j"} {
 			fd := core.MustFuncDecl(p, fn)
+			// the integer local that the type-switch branches assign
+			var codeObj types.Object
+			ast.Inspect(fd.Body, func(n ast.Node) bool {
+				if as, isAs := n.(*ast.AssignStmt); isAs && as.Tok == token.ASSIGN && len(as.Lhs) == 1 && len(as.Rhs) == 1 {
+					if id, isId := as.Lhs[0].(*ast.Ident); isId {
+						if _, isC := core.ConstInt(info, as.Rhs[0]); isC && codeObj == nil {
+							codeObj = core.ObjOf(info, id)
+						}
+					}
+				}
+				return true
+			})
 			ok := false
 			ast.Inspect(fd.Body, func(n ast.Node) bool {
 				if call, isCall := n.(*ast.CallExpr); isCall && len(call.Args) == 3 {
-					if s, isConst := constString(info, call.Args[1]); isConst && s == want[1] {
-						if id, isId := core.Unparen(call.Args[2]).(*ast.Ident); isId && id.Name == want[0] {
+					if s, isConst := constString(info, call.Args[1]); isConst && s == want {
+						if id, isId := core.Unparen(call.Args[2]).(*ast.Ident); isId && codeObj != nil && core.ObjOf(info, id) == codeObj {
 							ok = true
 						}
 					}
@@ -484,9 +500,9 @@ func E6EnumTables(c *core.Ctx, r *core.Report) {
 			key := "renderers/pdf." + fn + "|operator"
 			r.Count("E6.enum-entries", 1)
 			if ok {
-				r.OK("E6.enum", key, c.Pos(fd.Pos()), want[1])
+				r.OK("E6.enum", key, c.Pos(fd.Pos()), want)
 			} else {
-				r.Fail("E6.enum", key, c.Pos(fd.Pos()), fmt.Sprintf("the code in %s is not emitted as %q", want[0], want[1]))
+				r.Fail("E6.enum", key, c.Pos(fd.Pos()), fmt.Sprintf("the code chosen by the type switch is not emitted as %q", want))
 			}
 		}
 	}
@@ -548,6 +564,8 @@ func E6EnumTables(c *core.Ctx, r *core.Report) {
 
 func familyOf(s string) string {
 	switch {
+	case strings.HasPrefix(s, "code="):
+		return "code"
 	case strings.Contains(s, "lineCap") || strings.Contains(s, "linecap"):
 		return "cap"
 	case strings.Contains(s, "lineJoin") || strings.Contains(s, "linejoin"):
@@ -636,6 +654,24 @@ func E6ScannerSites(c *core.Ctx, r *core.Report) {
 	fd := core.MustFuncDecl(p, "Path.ToScanxScanner")
 	r.Func("canvas.Path.ToScanxScanner")
 	dyObj := paramObj(info, fd, 1)
+	var dpmmObj types.Object
+	ast.Inspect(fd.Body, func(nd ast.Node) bool {
+		if as, ok := nd.(*ast.AssignStmt); ok && as.Tok == token.DEFINE && len(as.Lhs) == 1 && len(as.Rhs) == 1 {
+			if call, ok := core.Unparen(as.Rhs[0]).(*ast.CallExpr); ok {
+				if f := core.CalleeOf(info, call); f != nil && f.Name() == "DPMM" {
+					dpmmObj = info.Defs[as.Lhs[0].(*ast.Ident)]
+				}
+			}
+		}
+		return true
+	})
+	if dpmmObj == nil {
+		panic(core.Infra("ToScanxScanner: the local holding resolution.DPMM() was not found"))
+	}
+	isDpmm := func(e ast.Expr) bool {
+		id, ok := core.Unparen(e).(*ast.Ident)
+		return ok && core.ObjOf(info, id) == dpmmObj
+	}
 	n := 0
 	ast.Inspect(fd.Body, func(nd ast.Node) bool {
 		call, ok := nd.(*ast.CallExpr)
@@ -660,7 +696,7 @@ func E6ScannerSites(c *core.Ctx, r *core.Report) {
 		var xi, yi *ast.IndexExpr
 		if mul, ok := core.Unparen(inner.Args[0]).(*ast.BinaryExpr); ok && mul.Op == token.MUL {
 			if ie, ok := core.Unparen(mul.X).(*ast.IndexExpr); ok && core.IsPathDataSel(info, ie.X) {
-				if id, ok := core.Unparen(mul.Y).(*ast.Ident); ok && id.Name == "dpmm" {
+				if isDpmm(mul.Y) {
 					okX, xi = true, ie
 				}
 			}
@@ -670,7 +706,7 @@ func E6ScannerSites(c *core.Ctx, r *core.Report) {
 			if id, ok := core.Unparen(sub.X).(*ast.Ident); ok && core.ObjOf(info, id) == dyObj {
 				if mul, ok := core.Unparen(sub.Y).(*ast.BinaryExpr); ok && mul.Op == token.MUL {
 					if ie, ok := core.Unparen(mul.X).(*ast.IndexExpr); ok && core.IsPathDataSel(info, ie.X) {
-						if id2, ok := core.Unparen(mul.Y).(*ast.Ident); ok && id2.Name == "dpmm" {
+						if isDpmm(mul.Y) {
 							okY, yi = true, ie
 						}
 					}
@@ -705,7 +741,7 @@ func E6ScannerSites(c *core.Ctx, r *core.Report) {
 			return true
 		}
 		calls++
-		if types.ExprString(call.Args[1]) == "float64(size.Y)" && types.ExprString(call.Args[2]) == "r.resolution" {
+		if core.AlphaContains(",float64($size.Y),$r.resolution)", c.Norm(rp, call)) {
 			good++
 		}
 		return true
@@ -727,16 +763,21 @@ func E6ScannerSites(c *core.Ctx, r *core.Report) {
 			if cf := core.CalleeOf(rp.TypesInfo, call); cf == nil || cf.Name() != "Rect" {
 				return true
 			}
-			s := types.ExprString(call.Args[2]) + " x " + types.ExprString(call.Args[3])
-			s = strings.NewReplacer("c.W", "W", "c.H", "H", "width", "W", "height", "H").Replace(s)
+			s := c.Norm(rp, call.Args[2]) + " x " + c.Norm(rp, call.Args[3])
 			shapes = append(shapes, s)
 			return true
 		})
 	}
-	want := "int(W*resolution.DPMM() + 0.5) x int(H*resolution.DPMM() + 0.5)"
-	nosp := func(s string) string { return strings.ReplaceAll(s, " ", "") }
-	if len(shapes) == 2 && shapes[0] == shapes[1] && nosp(shapes[0]) == nosp(want) {
-		r.OK("E6.image-size", "renderers/rasterizer|Draw~New", c.Pos(rfd.Pos()), shapes[0])
+	okSize := len(shapes) == 2
+	for _, sh := range shapes {
+		parts := strings.Split(sh, " x ")
+		if len(parts) != 2 || !(core.AlphaMatch("int($c.W*$res.DPMM()+0.5)", parts[0]) || core.AlphaMatch("int($w*$res.DPMM()+0.5)", parts[0])) ||
+			!(core.AlphaMatch("int($c.H*$res.DPMM()+0.5)", parts[1]) || core.AlphaMatch("int($h*$res.DPMM()+0.5)", parts[1])) {
+			okSize = false
+		}
+	}
+	if okSize {
+		r.OK("E6.image-size", "renderers/rasterizer|Draw~New", c.Pos(rfd.Pos()), "int(width*DPMM+0.5) x int(height*DPMM+0.5)")
 	} else {
 		r.Fail("E6.image-size", "renderers/rasterizer|Draw~New", c.Pos(rfd.Pos()), fmt.Sprintf("image size expressions differ or are not width x height x resolution: %v", shapes))
 	}
